@@ -11,7 +11,6 @@ from functools import lru_cache
 from vf import doc, explore, harness, schema as S
 from vf.data import Scenario
 
-from tartiflette.schema.registry import SchemaRegistry
 
 PROPERTY = "C16"
 LEVEL = "model_checking"
@@ -92,7 +91,7 @@ def make_engine(config):
 
 
 def drop(name):
-    SchemaRegistry._schemas.pop(name, None)  # memory only: histories never share a schema name
+    harness.forget(name)  # memory only: histories never share a schema name
 
 
 def norm(resp):
